@@ -28,6 +28,12 @@ def run():
         for why in probs[:1]:
             kind = "user_severity_not_emitted" if (len(key) > 2 and key[2] and ("cannot be read back" in why or "crashes" in why or "differ" in why)) else "round_trip"
             c.findings.append(Finding("bounded", "oc:" + kind, "style=%s seed=%s: %s" % (key[0], key[1], why), {"style": key[0], "seed": key[1], "observed": probs}, "style=%s seed=%s" % (key[0], key[1])))
+    fsample = corpus.sample(4, c.seed + 171)
+    fres = corpus.pmap(cli.c17_files_case, [(styles[i % 3], c.seed * 100 + 50 + i, fsample[i % 2 :] + fsample[: i % 2]) for i in range(3 if c.tier == "quick" else 30)], chunksize=1)
+    c.bounded["oc_with_files"] = {"evaluations": 4 * len(fres), "distinct_nontrivial": len(fres), "rule": "-oc of a run over files named './x', 'sub/../y', 'sub//z' with a file_rules entry for the first one: the emitted configuration alone (files from its file_list) gives the same violations per file and the same exit status"}
+    for key, probs in fres:
+        for why in probs[:1]:
+            c.findings.append(Finding("bounded", "oc:files", "style=%s seed=%s: %s" % (key[0], key[1], why), {"style": key[0], "seed": key[1], "observed": probs}, "style=%s seed=%s" % (key[0], key[1])))
     if c.tier == "thorough":
         run_selftest(c, ["mutants_emit.py"], lambda eng: QUALS[:1])
     c.trusted += ["assumed contract: %s — %s" % (q, ct["trusted"]) for q, ct in sorted(c.engine.contracts.items()) if ct.get("trusted") and ("severity" in q or "print_output" in q)]
